@@ -1,6 +1,6 @@
 (* C02 - cursors enumerate records in key order.  Statements only. *)
 Require Import List ZArith Lia. Import ListNotations.
-Require Import IW.KV.Node IW.KV.Cursor IW.KV.Cursor_proofs IW.KV.Node_proofs IW.KV.Inst IW.KV.Keys_proofs IW.Gen.Facts.
+Require Import IW.KV.Node IW.KV.Spec IW.KV.Cursor IW.KV.Cursor_proofs IW.KV.Node_proofs IW.KV.CursorGe_proofs IW.KV.Inst IW.KV.Keys_proofs IW.Gen.Facts.
 
 (* For EVERY chain of non-empty nodes with distinct identities (any number of nodes, any node sizes) and whatever
    state the cursor was in before: BEFORE_FIRST followed by repeated NEXT (reading the record after each successful
@@ -39,9 +39,48 @@ Theorem C02_cursor_eq_spec :
 Proof. exact cursor_eq_spec. Qed.
 Print Assumptions C02_cursor_eq_spec.
 
-(* PARTIAL: the GE positioning and the positioned read/write operations are in
-   the model (KV/Cursor.v: cursor_to, cursor_to_key, cursor_read; KV/Inst.v: db_cset, db_cdel) and are tied to the
-   implementation by the correspondence check, but no theorem about them is proved here. *)
+(* GE positions on the record the ordered specification designates (Spec.s_ge: the record with that key if stored,
+   otherwise the last record before the key in scan order = the smallest key greater than it), and reports not-found
+   exactly when no such record exists - whatever the cursor did before *)
+Theorem C02_cursor_ge_spec :
+  forall (K V : Type) (cmp : K -> K -> comparison) (IDXNUM PIVOT : nat), 1 <= PIVOT < IDXNUM ->
+    (forall a b c : K, cmp a b = Lt -> cmp b c = Eq -> cmp a c = Lt) ->
+    (forall a b c : K, cmp a b = Lt -> cmp b c = Lt -> cmp a c = Lt) ->
+    forall (c : chain K V) (cur : cursor) (k : K),
+      NodeInv K V cmp IDXNUM c -> ids_unique K V c ->
+      match cursor_to_key K V cmp c cur true k with
+      | (CROk, cur') => exists e, cursor_read K V c cur' = Some e /\ s_ge K V cmp (flat K V c) k None = Some e
+      | (_, _) => s_ge K V cmp (flat K V c) k None = None
+      end.
+Proof. exact cursor_ge_spec. Qed.
+Print Assumptions C02_cursor_ge_spec.
+
+(* deleting through a positioned cursor removes exactly the record the cursor reads - whatever calls preceded it (the
+   statement depends on the cursor only through the record it designates) *)
+Theorem C02_cursor_del_spec :
+  forall (K V : Type) (cmp : K -> K -> comparison) (IDXNUM PIVOT : nat), 1 <= PIVOT < IDXNUM ->
+    (forall a b c : K, cmp a b = Lt -> cmp b c = Eq -> cmp a c = Lt) ->
+    (forall a b : K, cmp a b = CompOpp (cmp b a)) ->
+    forall (c : chain K V) (cur : cursor) id i k0 v0,
+      NodeInv K V cmp IDXNUM c ->
+      cursor_at cur = Some (id, i) -> cursor_read K V c cur = Some (k0, v0) ->
+      exists c' ch, del_by_id K V None c id i = Some (c', ch) /\
+                    flat K V c' = s_del K V cmp (flat K V c) k0 /\ NodeInv K V cmp IDXNUM c'.
+Proof. exact cursor_del_spec. Qed.
+Print Assumptions C02_cursor_del_spec.
+
+(* overwriting through a positioned cursor replaces the value of exactly that record: same node, same slot, same key;
+   every other record and the order of keys are unchanged *)
+Theorem C02_cursor_set_spec :
+  forall (K V : Type) (cmp : K -> K -> comparison) (IDXNUM : nat),
+    forall (c : chain K V) (cur : cursor) id i k0 v0 v,
+      NodeInv K V cmp IDXNUM c ->
+      cursor_at cur = Some (id, i) -> cursor_read K V c cur = Some (k0, v0) ->
+      exists c' A r B, upd_by_id K V c id i v = Some c' /\ c = A ++ (id, r) :: B /\
+        c' = A ++ (id, update_at K V r i v) :: B /\ nth_error (update_at K V r i v) i = Some (k0, v) /\
+        map fst (flat K V c') = map fst (flat K V c) /\ NodeInv K V cmp IDXNUM c'.
+Proof. exact cursor_set_spec. Qed.
+Print Assumptions C02_cursor_set_spec.
 
 (* Non-vacuity: a three-node chain; the scan computed by the model returns its five records in order. *)
 Definition ex_chain : chain nat nat := [(1, [(10, 0); (9, 0)]); (2, [(7, 0)]); (5, [(4, 0); (2, 0)])].
